@@ -342,7 +342,7 @@ func genLatticeSpec(t *rapid.T, depth int, allowCircle bool) objSpec {
 	case "Circle":
 		s.Pts = []fpt{lp("c")}
 		s.Radius = F(rapid.SampledFrom([]float64{0, 1, 1000, 100000, 500000, 2e7, -1}).Draw(t, "radius"))
-		s.Steps = rapid.SampledFrom([]int{0, 3, 4, 64}).Draw(t, "steps")
+		s.Steps = rapid.SampledFrom([]int{-1000000, -1, 0, 1, 2, 3, 4, 64, 5000}).Draw(t, "steps") // any int is a legal argument of NewCircle
 	case "MultiPoint":
 		s.Pts = lps(0, 5, "mp")
 	case "MultiLineString":
